@@ -1,1 +1,156 @@
-//! c08 — harnesses not written yet.
+//! C08 — same seed, same run (NARROW claim: generator handling only).
+//! Code: mahf::state::random::Random::{with_rng,config,iter_children,next_u32,next_u64,fill_bytes}, RandomIter::next, mahf::problems::evaluate::Sequential::evaluate, mahf::components::evaluation::PopulationEvaluator::execute (draw-freeness)
+//! Out: independence of evaluator / thread count / scheduling (rayon: no concurrency model in the engine); 'different seeds give different streams' for the default ChaCha12 generator (a cryptographic injectivity question, not a bounded-model-checking one); equality of whole runs of cloned configurations (whole-program); Configuration::optimize_with cannot be compiled by Kani 0.68 (thread_rng ICE), so 'a user-supplied generator is never replaced' is decided only at the level of the state API the function uses (contains / insert)
+//! Assume: harness generator SeedRng whose stream is a visible function of its seed (output k = seed + k), so that seeding and child derivation are observable
+use mahf::components::evaluation::PopulationEvaluator;
+use mahf::components::Component;
+use mahf::identifier::Global;
+use mahf::problems::{Evaluate, ObjectiveFunction, Problem, Sequential};
+use mahf::state::common::{Evaluations, Populations};
+use mahf::{Individual, Random, SingleObjective, State};
+use rand::{RngCore, SeedableRng};
+
+use crate::problems::obj;
+use crate::rng::{draws, sym_random};
+use crate::sym;
+
+/// Generator whose k-th 64-bit output is seed + k.
+pub struct SeedRng {
+    seed: u64,
+    k: u64,
+}
+impl RngCore for SeedRng {
+    fn next_u32(&mut self) -> u32 {
+        self.next_u64() as u32
+    }
+    fn next_u64(&mut self) -> u64 {
+        let v = self.seed.wrapping_add(self.k);
+        self.k += 1;
+        v
+    }
+    fn fill_bytes(&mut self, dest: &mut [u8]) {
+        for b in dest {
+            *b = self.next_u64() as u8;
+        }
+    }
+    fn try_fill_bytes(&mut self, dest: &mut [u8]) -> Result<(), rand::Error> {
+        self.fill_bytes(dest);
+        Ok(())
+    }
+}
+impl SeedableRng for SeedRng {
+    type Seed = [u8; 8];
+    fn from_seed(s: Self::Seed) -> Self {
+        SeedRng { seed: u64::from_le_bytes(s), k: 0 }
+    }
+    fn seed_from_u64(seed: u64) -> Self {
+        SeedRng { seed, k: 0 }
+    }
+}
+
+/// @h tier=quick bound="every 64-bit seed: the generator is seeded with exactly the given seed and reports it" unwind=4 cost=2
+#[cfg_attr(kani, kani::proof)]
+#[cfg_attr(kani, kani::unwind(4))]
+pub fn h_c08_seeding() {
+    let seed = sym::u64();
+    let mut r = Random::with_rng::<SeedRng>(seed);
+    assert!(r.config().seed == seed, "the configured seed is reported");
+    assert!(r.next_u64() == seed, "the backend is seeded with exactly that seed (first output)");
+    assert!(r.next_u64() == seed.wrapping_add(1), "second output");
+    assert!(r.next_u32() == seed.wrapping_add(2) as u32, "32-bit outputs come from the same stream");
+    let seed2 = sym::u64();
+    let mut r2 = Random::with_rng::<SeedRng>(seed2);
+    let (a, b) = (r2.next_u64(), {
+        let mut r3 = Random::with_rng::<SeedRng>(seed);
+        r3.next_u64()
+    });
+    assert!((a == b) == (seed == seed2), "equal seeds give equal streams and different seeds different ones (for this generator)");
+    vcover!(seed == 0, "seed zero");
+    vcover!(seed != seed2, "different seeds");
+    std::mem::forget((r, r2));
+}
+
+/// @h tier=quick bound="every 64-bit seed: children are a deterministic function of the parent stream" unwind=4 cost=3
+#[cfg_attr(kani, kani::proof)]
+#[cfg_attr(kani, kani::unwind(4))]
+pub fn h_c08_children() {
+    let seed = sym::u64();
+    let mut parent = Random::with_rng::<SeedRng>(seed);
+    let mut it = parent.iter_children();
+    let c1 = it.next();
+    let c2 = it.next();
+    match (c1, c2) {
+        (Some(mut c1), Some(mut c2)) => {
+            assert!(c1.config().seed == seed && c2.config().seed == seed.wrapping_add(1), "each child is seeded with the next output of the parent");
+            assert!(c1.next_u64() == seed && c2.next_u64() == seed.wrapping_add(1), "and built with the parent's generator type (its stream shows the seed)");
+            // the parent advanced by exactly two outputs
+            assert!(parent.next_u64() == seed.wrapping_add(2), "deriving a child consumes exactly one parent output");
+            // a second parent with the same seed derives the same children
+            let mut p2 = Random::with_rng::<SeedRng>(seed);
+            match p2.iter_children().next() {
+                Some(mut d1) => assert!(d1.config().seed == c1.config().seed && d1.next_u64() == seed, "same seed, same children"),
+                None => assert!(false, "children never run out"),
+            }
+            // grandchildren use the same constructor
+            match c1.iter_children().next() {
+                Some(g) => assert!(g.config().seed == seed.wrapping_add(1), "a child derives its own children the same way"),
+                None => assert!(false, "children never run out"),
+            }
+            std::mem::forget((c1, c2, p2));
+        }
+        _ => assert!(false, "children never run out"),
+    }
+    vcover!(true, "reached");
+    std::mem::forget(parent);
+}
+
+// ---- sequential evaluation draws nothing ------------------------------------------------------------------------------
+
+pub struct P8;
+impl Problem for P8 {
+    type Encoding = u8;
+    type Objective = SingleObjective;
+    fn name(&self) -> &str {
+        "P8"
+    }
+}
+impl ObjectiveFunction for P8 {
+    fn objective(&self, s: &u8) -> SingleObjective {
+        obj(*s as f64)
+    }
+}
+
+/// @h tier=quick bound="evaluation step on 2 individuals with a generator in the state: zero draws, generator untouched" unwind=5 cost=4 mem=12
+#[cfg_attr(kani, kani::proof)]
+#[cfg_attr(kani, kani::unwind(5))]
+pub fn h_c08_evaluation_draws_nothing() {
+    let mut pops = Populations::<P8>::new();
+    pops.push(vec![Individual::new_unevaluated(sym::u8()), Individual::new_unevaluated(sym::u8())]);
+    let mut s: State<P8> = State::new();
+    s.insert(Evaluations(0));
+    s.insert_evaluator(Sequential::<P8>::new());
+    s.insert(sym_random(0));
+    s.insert(pops);
+    let c = PopulationEvaluator::<Global>::from_params();
+    assert!(Component::<P8>::execute(&c, &P8, &mut s).is_ok(), "evaluation succeeds");
+    assert!(draws() == 0, "sequential evaluation consumes no random numbers, so results cannot depend on how evaluation is scheduled relative to other draws");
+    assert!(s.contains::<Random>(), "the generator stays in the state");
+    vcover!(true, "reached");
+    std::mem::forget(s);
+}
+
+/// The state-level rule `optimize_with` applies: a generator is inserted only if none is there.
+/// @h tier=quick bound="state API used by optimize_with: a supplied generator is found by contains::<Random>() and keeps its seed" unwind=4 cost=2
+#[cfg_attr(kani, kani::proof)]
+#[cfg_attr(kani, kani::unwind(4))]
+pub fn h_c08_supplied_generator_visible() {
+    let seed = sym::u64();
+    let mut s: State<P8> = State::new();
+    s.insert(Populations::<P8>::new());
+    s.insert(Random::with_rng::<SeedRng>(seed));
+    assert!(s.contains::<Random>(), "a supplied generator is visible to the 'insert a default only if absent' rule");
+    assert!(s.borrow::<Random>().config().seed == seed, "and is the one supplied");
+    assert!(s.random_mut().next_u64() == seed, "with its stream untouched");
+    vcover!(true, "reached");
+    std::mem::forget(s);
+}
